@@ -56,15 +56,26 @@ EXPLANATION = (
     "every stored node is checked against its parent (sibling required, parent = pair_hash of the sorted pair, computed "
     "parent stored and enqueued one level up, only the root is skipped, levels bottom-up) - so a call returns normally "
     "only when everything it added hangs off the trusted root, and a call that raises leaves nothing behind. "
+    "(16, rule C10.15) availability at the servermap: a share is kept out of the servermap only by its own checks - in "
+    "ServermapUpdater._got_results every branch decision that keeps a share of a server's answer from reaching "
+    "_got_signature_one_share, and in _got_signature_one_share every branch decision that keeps a share from reaching "
+    "add_new_share (the edges after which the recording call is no longer reachable), is an exception / assertion of the "
+    "validation, the end of the answer, the updater having been stopped, or a test that depends on what differs from share "
+    "to share (the Deferred result and the loop variables, e.g. the (server, shnum) key looked up in the bad-share map) - "
+    "never a test on the server alone (a corrupt sibling share); the per-share loop is left only when the answer is "
+    "exhausted; ServerMap.add_new_share stores the (server, shnum) it is given on every path, ServerMap removes from "
+    "_known_shares only the one (server, shnum) named by its caller, and the updater calls mark_bad_share only for the "
+    "(server, shnum) the failing callback was invoked for. "
     "Undecided: RSA / SHA-256d strength, the index algebra and the writer-side shape of the hash trees (C35.5-C35.8), zfec algebra, the rest of availability (k intact shares => "
     "success: share selection and replacement, exceptions other than struct.error that malformed server answers could "
     "provoke in the reader such as IndexError on an empty read vector; "
     "this includes edits that only make a gate stricter, e.g. `and` -> `or` in the SDMF IV test, skipping "
-    "bht.set_hashes(blockhashes), negating the bad-share / running tests of the servermap updater), pause/stop "
+    "bht.set_hashes(blockhashes), negating the bad-share / running tests of the servermap updater, which shares "
+    "Retrieve picks and how it replaces a share that failed), pause/stop "
     "handling, the values of the trim bounds ((offset + read_length) % segment_size, offset % segment_size) and the "
     "order tail-before-head, the start/last segment arithmetic of _setup_encoding_parameters and _decode_blocks' own "
     "trimming (C09), publish-side surprise handling (C12).")
-TECHNIQUE = "static analysis: CFG must-precede gates on normalised edge facts, who-may-call/write sweeps, Deferred chain order, reaching definitions, exception-type containment along Deferred chains and the class hierarchy, rollback pairing (journal / undo) on the hash-tree store"
+TECHNIQUE = "static analysis: CFG must-precede gates on normalised edge facts, who-may-call/write sweeps, Deferred chain order, reaching definitions, exception-type containment along Deferred chains and the class hierarchy, rollback pairing (journal / undo) on the hash-tree store, diverting-edge analysis (branch edges after which the recording call is unreachable) with def-use dependency sets"
 
 SM = "mutable.servermap:ServermapUpdater"
 SMAP = "mutable.servermap:ServerMap"
@@ -440,6 +451,120 @@ class _StructContainment:
                 break
         self._leak[f.qual] = res
         return res
+
+
+# ------------------------------------------------- diverting edges (C10.15)
+def _can_reach(cfg, targets):
+    """ids of the nodes from which a target node is reachable - within the same iteration of every for loop whose body
+    holds a target (the back edges of those loops are not followed: the next share is another obligation)."""
+    tast = {id(t.ast) for t in targets if t.ast is not None}
+    inside = {}
+    for it in cfg.nodes:
+        if it.kind == "iter":
+            body = {id(x) for st in it.ast.body for x in ast.walk(st)}
+            if body & tast:
+                inside[it.id] = body
+    seen = {t.id for t in targets}
+    work = list(seen)
+    while work:
+        x = work.pop()
+        for (p, _lab) in cfg.pred[x]:
+            pa = cfg.nodes[p].ast
+            if x in inside and pa is not None and id(pa) in inside[x]:
+                continue
+            if p not in seen:
+                seen.add(p)
+                work.append(p)
+    return seen
+
+
+def _diverting_edges(cfg, targets):
+    """(u, label, v): u can still reach a target, v (its successor on that edge) cannot - the branch decisions (and
+    exceptions) that make a path miss every target."""
+    can = _can_reach(cfg, targets)
+    live = cfg.reachable_nodes()
+    tids = {t.id for t in targets}
+    out = []
+    for u in cfg.nodes:
+        if u.id not in can or u.id not in live or u.id in tids:
+            continue
+        for (d, lab) in cfg.succ[u.id]:
+            if d not in can:
+                out.append((u, lab, cfg.nodes[d]))
+    return out
+
+
+def _own_verdict(fn, u, lab, own, defs):
+    """May this diverting edge decide the fate of the share?  Yes when it is the share's own check failing (exception,
+    assertion), the end of the loop, the updater having been stopped, or a test on something that belongs to this
+    share (depends on one of `own`).  Returns (ok, dependency set)."""
+    if lab == "exc":
+        return True, set()
+    if u.kind == "iter":
+        return lab == "done", set()
+    if u.kind != "test":
+        return False, set()
+    if u.assume:
+        return True, set()
+    deps = depends_on(fn, u.ast, defs=defs) - {"self"}
+    if deps & own:
+        return True, deps
+    if deps == {"self._running"}:
+        return True, deps
+    return False, deps
+
+
+def _loop_of(cfg, node_ast):
+    """innermost for-loop head whose body holds node_ast"""
+    best = None
+    for it in cfg.nodes:
+        if it.kind == "iter":
+            body = {id(x) for st in it.ast.body for x in ast.walk(st)}
+            if id(node_ast) in body and (best is None or id(it.ast) in {id(x) for x in ast.walk(best.ast)}):
+                best = it
+    return best
+
+
+def _names(e):
+    return {n.id for n in ast.walk(e) if isinstance(n, ast.Name)}
+
+
+def _per_share_params(gr, reg, callee, loopvars, defs):
+    """Parameters of `callee` that differ from share to share at the registration `reg` made in the per-share loop of
+    `gr`: the one receiving the Deferred's result and those fed from the loop variables."""
+    ps = first_positional_params(callee)
+    own = set()
+    t = reg.target
+    if isinstance(t, ast.Lambda):
+        calls = [c for c in ast.walk(t.body) if isinstance(c, ast.Call) and call_tail(c) == callee.name]
+        la = t.args
+        lps = [a.arg for a in la.posonlyargs + la.args]
+        dflt = dict(zip(reversed(lps), reversed(la.defaults)))
+        for c in calls:
+            pairs = [(ps[i], a) for i, a in enumerate(c.args) if i < len(ps)]
+            pairs += [(k.arg, k.value) for k in c.keywords if k.arg in ps]
+            for (pn, a) in pairs:
+                for nm in _names(a):
+                    if lps and nm == lps[0] and nm not in dflt:
+                        own.add(pn)
+                    elif nm in lps and nm not in dflt:
+                        continue
+                    elif depends_on(gr, dflt.get(nm, ast.Name(id=nm, ctx=ast.Load())), defs=defs) & loopvars:
+                        own.add(pn)
+    else:
+        if ps:
+            own.add(ps[0])
+        for i, a in enumerate(reg.args):
+            if i + 1 < len(ps) and depends_on(gr, a, defs=defs) & loopvars:
+                own.add(ps[i + 1])
+    return own
+
+
+def _reg_runs(reg, name):
+    t = reg.target
+    if isinstance(t, ast.Lambda):
+        return any(isinstance(c, ast.Call) and call_tail(c) == name for c in ast.walk(t.body))
+    return _name_tail(t) == name
 
 
 def run(ctx: Context):
@@ -1586,6 +1711,176 @@ def run(ctx: Context):
     # because the share hash chain's node numbers are unpacked from the share.
     _need_set_hashes_user(idx)
     ctx.include("C35", ["C35.1", "C35.2", "C35.3", "C35.4", "C35.9"], "C10.14")
+
+
+    # -- 15. availability: a share is judged on its own checks only ------------------------------------------------
+    # "If at least k intact shares of the newest version are reachable, the read succeeds": a server may hold several
+    # shares, and one damaged share must not cost the reader the intact ones next to it.  So the only decisions that may
+    # keep a share of an answer out of the servermap are that share's own checks (an exception / assertion raised while
+    # validating it, a test on its own (server, shnum) key or its own data), the end of the answer, and the updater
+    # having been stopped - never a verdict recorded for the server as a whole or for another share.
+    with ctx.rule("C10.15", "R1/R4", "every share of a server's answer reaches _got_signature_one_share and is recorded by "
+                  "add_new_share unless one of its OWN checks diverts it (exception, its own (server, shnum) key, its own "
+                  "data, updater stopped); ServerMap records / forgets exactly the (server, shnum) it is told to; the "
+                  "updater marks bad only the share that failed", expected=5) as r:
+        gs = idx.func(SM + "._got_signature_one_share")
+        gr = idx.func(SM + "._got_results")
+        gcfg = gr.cfg()
+        gdefs = def_exprs(gr)
+        regs = [x for x in registrations(gr) if x.kind in ("cb", "both", "pair") and _reg_runs(x, gs.name)]
+        if not regs:
+            raise AnchorVanished("_got_results no longer registers _got_signature_one_share on the per-share Deferred")
+        reg_nodes = [n for n in gcfg.nodes if n.kind == "stmt" and n.ast is not None
+                     and any(x.call in set(ast.walk(n.ast)) for x in regs)]
+        if not reg_nodes:
+            raise AnchorVanished("statement registering _got_signature_one_share")
+        loops = [_loop_of(gcfg, x.call) for x in regs]
+        if any(l is None for l in loops):
+            raise AnchorVanished("_got_signature_one_share is no longer registered inside the per-share loop of _got_results")
+        loopvars = set()
+        own_res = set()
+        for l in loops:
+            loopvars |= _names(l.ast.target)
+            own_res |= depends_on(gr, l.ast.iter, defs=gdefs) & set(gr.params)
+        # (a) the per-share loop of _got_results
+        for (u, lab, v) in _diverting_edges(gcfg, reg_nodes):
+            r.site(gr, u.ast, "leaves the path to the signature check")
+            ok, deps = _own_verdict(gr, u, lab, loopvars | own_res, gdefs)
+            r.count(len(gcfg.nodes))
+            if not ok:
+                r.violation(gr, gr.loc(u.ast) if u.ast is not None else gr.loc(), "_got_results: `%s` keeps a share of the "
+                            "server's answer from ever reaching _got_signature_one_share, and it depends only on %s - not on "
+                            "the share itself (%s): intact shares are dropped because of something recorded for the server "
+                            "or for another share, and a read can fail although k intact shares are reachable" % (
+                                src(gr, u.ast) if u.ast is not None else u.kind, sorted(deps) or "nothing",
+                                ", ".join(sorted(loopvars))))
+        # ... and the loop goes on to the next share of the answer: it is left only when the answer is exhausted
+        for l in {id(l): l for l in loops}.values():
+            stack = [(st, True) for st in l.ast.body]
+            while stack:
+                st, mine = stack.pop()
+                if isinstance(st, (ast.FunctionDef, ast.AsyncFunctionDef, ast.Lambda, ast.ClassDef)):
+                    continue
+                if isinstance(st, ast.Return) or (isinstance(st, ast.Break) and mine):
+                    r.violation(gr, gr.loc(st), "_got_results leaves the per-share loop with `%s` before every share of the "
+                                "server's answer has been handed to _got_signature_one_share: the remaining (intact) shares "
+                                "of this answer never reach the servermap" % src(gr, st))
+                inner = mine and not isinstance(st, (ast.For, ast.AsyncFor, ast.While))
+                for ch in ast.iter_child_nodes(st):
+                    if isinstance(st, (ast.For, ast.AsyncFor, ast.While)) and ch in st.orelse:
+                        stack.append((ch, mine))
+                    else:
+                        stack.append((ch, inner))
+        # (b) _got_signature_one_share: from the verified signature to add_new_share
+        own = set()
+        for x in regs:
+            lv = _names(_loop_of(gcfg, x.call).ast.target)
+            own |= _per_share_params(gr, x, gs, lv, gdefs)
+        if not own:
+            raise AnchorVanished("no parameter of _got_signature_one_share identifies the share it is called for")
+        scfg = gs.cfg()
+        sdefs = def_exprs(gs)
+        adds = [n for n in scfg.nodes if n.kind == "stmt" and calls_at(n, "add_new_share")]
+        if not adds:
+            raise AnchorVanished("add_new_share call in _got_signature_one_share")
+        for n in adds:
+            r.site(gs, n.ast, "records the share")
+            for c in calls_at(n, "add_new_share"):
+                got = [attr_path(a) for a in c.args[:2]]
+                r.require(set(x for x in got if x) & own and len(c.args) >= 2, gs, gs.loc(c), "add_new_share(%s) does not "
+                          "record the share this call was made for (%s)" % (", ".join(src(gs, a) for a in c.args),
+                                                                        ", ".join(sorted(own))))
+        for (u, lab, v) in _diverting_edges(scfg, adds):
+            r.site(gs, u.ast, "leaves the path to add_new_share")
+            ok, deps = _own_verdict(gs, u, lab, own, sdefs)
+            r.count(len(scfg.nodes))
+            if not ok:
+                r.violation(gs, gs.loc(u.ast) if u.ast is not None else gs.loc(), "_got_signature_one_share: `%s` keeps a "
+                            "share whose signature was accepted out of the servermap, and it depends only on %s - not on "
+                            "this share (%s): a share is discarded because of the verdict on another share (e.g. a "
+                            "corrupt sibling on the same server), so a read can fail although k intact shares are "
+                            "reachable" % (src(gs, u.ast) if u.ast is not None else u.kind, sorted(deps) or "nothing",
+                                           ", ".join(sorted(own))))
+        # (c) ServerMap: records / forgets exactly the share it is told to
+        smap = idx.cls(SMAP)
+        KS = "self._known_shares"
+        an = smap.methods.get("add_new_share")
+        mb = smap.methods.get("mark_bad_share")
+        if an is None or mb is None:
+            raise AnchorVanished("ServerMap.add_new_share / mark_bad_share")
+        acfg = an.cfg()
+        afn = FlowNorm(an)
+        aps = first_positional_params(an)
+        stores_ks = [n for n in acfg.nodes if n.kind == "stmt" and KS + "[]" in node_stores(n)]
+        if not stores_ks:
+            raise AnchorVanished("ServerMap.add_new_share no longer stores into _known_shares")
+        want = norm_src("(%s, %s)" % (aps[0], aps[1]))
+        for n in stores_ks:
+            r.site(an, n.ast, "stores the share")
+            for t in (n.ast.targets if isinstance(n.ast, ast.Assign) else [getattr(n.ast, "target", None)]):
+                if isinstance(t, ast.Subscript) and attr_path(t.value) == KS:
+                    r.require(afn.norm(n, t.slice) == want, an, an.loc(n.ast), "add_new_share stores the share under %s, "
+                              "its caller named %s" % (src(an, t.slice), want))
+        for (u, lab, v) in _diverting_edges(acfg, stores_ks):
+            ok, deps = _own_verdict(an, u, lab, set(), def_exprs(an))
+            if not ok:
+                r.violation(an, an.loc(u.ast) if u.ast is not None else an.loc(), "ServerMap.add_new_share: `%s` makes it "
+                            "return without recording the share its caller validated" % (
+                                src(an, u.ast) if u.ast is not None else u.kind))
+        n_rm = 0
+        for m in smap.methods.values():
+            mfn = None
+            mps = first_positional_params(m)
+            for n in m.cfg().nodes:
+                if n.ast is None or n.kind not in ("stmt", "test", "iter", "with"):
+                    continue
+                rm = []         # (what, key expr or None)
+                for c in node_calls(n):
+                    if isinstance(c.func, ast.Attribute) and attr_path(c.func.value) == KS:
+                        if c.func.attr == "pop":
+                            rm.append(("pop", c.args[0] if c.args else None))
+                        elif c.func.attr in ("clear", "popitem"):
+                            rm.append((c.func.attr, None))
+                if isinstance(n.ast, ast.Delete):
+                    for t in n.ast.targets:
+                        if isinstance(t, ast.Subscript) and attr_path(t.value) == KS:
+                            rm.append(("del", t.slice))
+                        elif attr_path(t) == KS:
+                            rm.append(("del", None))
+                for (what, key) in rm:
+                    n_rm += 1
+                    r.site(m, n.ast, "forgets a share")
+                    if mfn is None:
+                        mfn = FlowNorm(m)
+                    good = key is not None and len(mps) >= 2 and mfn.norm(n, key) == norm_src("(%s, %s)" % (mps[0], mps[1])) \
+                        and _loop_of(m.cfg(), n.ast) is None
+                    r.require(good, m, m.loc(n.ast), "ServerMap.%s removes %s from the known shares, not just the one "
+                              "(server, shnum) its caller found bad: intact shares vanish from the map together with a "
+                              "damaged one" % (m.name, ("the entry " + src(m, key)) if key is not None else "entries (%s)" % what))
+        if not n_rm:
+            raise AnchorVanished("ServerMap no longer removes a bad share from _known_shares")
+        # (d) the updater marks bad only the share whose check failed
+        n_mb = 0
+        pfx = idx.cls(SM).qual + "."
+        for f in list(idx.funcs.values()):
+            if not f.qual.startswith(pfx):
+                continue
+            cs = calls_in_func(f, "mark_bad_share")
+            if not cs:
+                continue
+            ffn = FlowNorm(f)
+            fcfg = f.cfg()
+            for n in fcfg.nodes:
+                for c in calls_at(n, "mark_bad_share"):
+                    n_mb += 1
+                    r.site(f, c, "marks a share bad")
+                    a = [ffn.norm(n, x) for x in c.args[:2]]
+                    good = len(a) == 2 and a[0] != a[1] and all(x in f.params for x in a) and _loop_of(fcfg, c) is None
+                    r.require(good, f, f.loc(c), "%s marks %s bad, which is not (only) the share it was called for (its "
+                              "parameters): shares that were never found damaged are removed from the servermap" % (
+                                  short(f), src(f, c)))
+        if not n_mb:
+            raise AnchorVanished("ServermapUpdater no longer marks a corrupt share bad")
 
 
 def _need_set_hashes_user(idx):
